@@ -755,7 +755,12 @@ impl<T> TooDee<T> {
     {
         assert!(index < self.num_rows);
         let start = index * self.num_cols;
-        let drain = self.data.drain(start..start + self.num_cols);
+        // Move the row to the end of the array before draining it. If the returned `Drain` is
+        // leaked (e.g. by `mem::forget`), `Vec::drain` leaves the `Vec` truncated at the start of
+        // the drained range, which then still agrees with the updated dimensions.
+        self.data[start..].rotate_left(self.num_cols);
+        let drain_start = self.data.len() - self.num_cols;
+        let drain = self.data.drain(drain_start..);
         self.num_rows -= 1;
         if self.num_rows == 0 {
             self.num_cols = 0;
